@@ -91,6 +91,20 @@ def body(case, rec):
             return
         O = snapshot(outd)
         names = sorted(O)
+        twin = next((n for n in names if n.endswith(".curated.tpf")), None)
+        if fmt == "tpf" and twin and case.get("input_named_like_output"):
+            # second curation round: the input assembly file carries the name of one of this run's output files
+            # (it lives in another directory); everything below is done with that input
+            src2 = ind / twin
+            src.rename(src2)
+            src = src2
+            args[1] = src
+            wipe(outd)
+            code, msg = run(args, sub)
+            if code != 0:
+                raise Violation(f"run failed when the input file is called {twin} (in another directory than the output): {msg[-200:]!r}")
+            O = snapshot(outd)
+            names = sorted(O)
         if case["write_log"] and "x.2.log" not in O:
             raise Violation(f"--write-log run (log level {case.get('log_level')}) wrote no log file: {names}")
         classes = {f"fmt_{fmt}", "log" if case["write_log"] else "no_log", "subprocess" if sub else "inprocess"}
@@ -198,10 +212,59 @@ def cases(draw):
     c["subprocess"] = draw(st.integers(0, 7)) == 0
     c["log_level"] = draw(st.sampled_from([None, None, "INFO", "WARNING", "ERROR", "DEBUG"]))
     c["symlinks"] = draw(st.integers(0, 3)) == 0
+    c["input_named_like_output"] = draw(st.integers(0, 2)) == 0
     return c
 
 
+def many_outputs_cases(tier, shard, nshards):
+    """130 haplotypes, one painted chromosome each: 262 output files; subsets of 255 / 256 / 257 / all of them pre-exist"""
+    for k, size in enumerate((255, 256, 257, 262)):
+        if k % nshards == shard:
+            yield {"haplotypes": 130, "existing": size}
+
+
+def body_many_outputs(case, rec):
+    n = case["haplotypes"]
+    inp = [[f"Hap{i}_scaffold_{i}", [["F", f"Hap{i}_scaffold_{i}", 1, 400 + i, 1]]] for i in range(1, n + 1)]
+    mp_rows = [[f"Scaffold_{i}", [["F", f"Hap{i}_scaffold_{i}", 1, 400 + i, 1, ["Painted", f"Hap{i}"]]]] for i in range(1, n + 1)]
+    c = {"t": "1.000000", "input": inp, "map": mp_rows}
+    rec.note(case, True, {f"existing_{case['existing']}"})
+    d = remap.scratch_dir("vf-c16-")
+    try:
+        (d / "in").mkdir()
+        src = d / "in" / "input.tpf"
+        src.write_text(remap.input_text(c, "tpf"))
+        mp = d / "in" / "map.agp"
+        mp.write_text(remap.map_agp_text(c))
+        outd = d / "out"
+        outd.mkdir()
+        args = ["-a", src, "-p", mp, "-o", outd / "x.2.tpf", "--no-write-log"]
+        r = remap.run_cli_subprocess(args)
+        if r.returncode != 0:
+            raise Violation(f"fresh run with {n} haplotypes failed: {r.stderr[-300:]!r}")
+        O = snapshot(outd)
+        names = sorted(O)
+        if len(names) < case["existing"]:
+            raise Violation(f"expected at least {case['existing']} output files, the run wrote {len(names)}")
+        S = names[: case["existing"]]
+        wipe(outd)
+        for k, nm in enumerate(S):
+            (outd / nm).write_bytes(sentinel("short", b"", k))
+        r = remap.run_cli_subprocess([*args, "--no-clobber"])
+        for k, nm in enumerate(S):
+            if not (outd / nm).exists() or (outd / nm).read_bytes() != sentinel("short", b"", k):
+                raise Violation(f"--no-clobber with {len(S)} pre-existing files: {nm} was altered or removed")
+        if r.returncode == 0:
+            raise Violation(f"--no-clobber: exit status 0 of the real process although {len(S)} output files already existed")
+        if not any(str(outd / nm) in r.stderr + r.stdout for nm in S):
+            raise Violation(f"--no-clobber: error output names none of the {len(S)} colliding files: {(r.stderr + r.stdout)[-300:]!r}")
+    finally:
+        remap.rmtree(d)
+
+
 SUBS = [
+    Sub("many_outputs", kind="enum", cases=many_outputs_cases, body=body_many_outputs,
+        budget={"quick": 4, "thorough": 4}, desc="a run with 262 output files (130 haplotypes), 255 / 256 / 257 / 262 of them pre-existing, real process exit status"),
     Sub("clobber", kind="hyp", strategy=cases, body=body, shrink=False,
         budget={"quick": 480, "thorough": 8000}, desc="fresh run, --no-clobber with a pre-existing subset, default --clobber over long sentinels"),
 ]
